@@ -219,6 +219,9 @@ fn fidelity(args: &[String], verif: &Path, seed: u64) -> i32 {
             }
             // every file of the simulated fs must equal the real one, and vice versa
             for (p, c) in &fs {
+                if crate::world::is_meta_key(p) {
+                    continue;
+                }
                 match std::fs::read(dir.join(p)) {
                     Ok(rc) if rc == *c => {}
                     Ok(rc) => problems.push(format!("file {:?} real={:?} sim={:?}", p, String::from_utf8_lossy(&rc), String::from_utf8_lossy(c))),
